@@ -98,6 +98,16 @@ def programs(tier, seed):
     for e in exprs('quick', ('item', 'j2'))[:26:2] + exprs('quick', ('item', 'j2'))[20:]:
         progs.append({'wxml': '<block wx:for="{{list}}"><block wx:for="{{item.sub}}" wx:for-item="j2" wx:for-index="k2">' + site_wxml('attr', e) + '</block></block>',
                       'kind': 'attr', 'expr': e, 'scopes': ['for', 'for2']})
+    # placements: every site kind nested among static parents / siblings (depth 2 and 3), in component content, blocks and branches
+    placements = ['<view bind:tap="h">%s</view>', '<view><text>static</text>%s<view class="s"/></view>',
+                  '<view id="i"><view mark:m="1"><text class="del">t</text>%s</view><text>u</text></view>', '<comp>%s</comp>', '<block>%s</block>',
+                  '<view wx:if="{{ w }}"><view>%s</view></view>', '<view>%s</view><view>static</view>']
+    for k in SITE_KINDS:
+        for e in (A, ('mem', A, 'k')):
+            if k == 'model' and guards.chain_of(e) is None:
+                continue
+            for pl in (placements if tier == 'thorough' or k in ('data', 'attr', 'text') else rnd.sample(placements, 3)):
+                progs.append({'wxml': pl % site_wxml(k, e) + '<template name="t9"><view b="{{p9}}"/></template>', 'kind': k, 'expr': e, 'scopes': []})
     # slot values as scopes
     for e in [('id', 'sv'), ('mem', ('id', 'sv'), 'k'), ('bin', '+', ('id', 'sv'), A), ('idx', A, ('id', 'sv'))]:
         progs.append({'wxml': '<comp><view slot:sv a="{{ %s }}"/></comp>' % esc(M.pr(e)), 'kind': 'attr', 'expr': e, 'scopes': ['slot']})
@@ -125,6 +135,15 @@ def main(tier):
             H = rt.load(c['gen_object'], c['runtime'])
             root = rt.run(H)
             obs = site_obligations(rt, root, p)
+            rtc = Runtime('create')
+            rootc = rtc.run(rtc.load(c['gen_object'], c['runtime']))
+            ncreate = count_sites(rtc, rootc, p)
+            if ncreate > count_sites(rt, root, p):
+                # a site that creation renders is never reached in update mode (for no update tree at all)
+                classes.setdefault((p['kind'], 'unreached'), []).append((p, c, '%s site is not re-evaluated in update mode' % p['kind'], None))
+                res.query('sat')
+                nsites += 1
+                continue
         except JsUnsupported as e:
             res.inconc('%s: outside the translator: %s' % (p['wxml'], e))
             continue
@@ -173,11 +192,67 @@ def main(tier):
     return res.finish()
 
 
+def count_sites(rt, root, p):
+    kind = p['kind']
+    if kind in ('attr', 'class', 'style', 'data', 'mark', 'model'):
+        name = {'attr': 'a', 'class': None, 'style': None, 'data': 'x', 'mark': 'm', 'model': 'value'}[kind]
+        setter = {'attr': 'r', 'class': 'c', 'style': 'y', 'data': 'd', 'mark': 'm', 'model': 'r'}[kind]
+        return sum(1 for n in driver.walk(root) for a in n.attrs if a[0] == setter and (name is None or (a[1] and a[1][0] == name)) and
+                   any(mentions_data(rt, x) for x in a[1]))
+    if kind == 'text':
+        return sum(1 for n in driver.walk(root) if n.kind == 'T' and n.text is not UNDEFINED and mentions_data(rt, n.text))
+    if kind == 'if':
+        return sum(1 for n in driver.walk(root) if n.kind == 'B' and not isinstance(n.key, str))
+    if kind == 'for':
+        return sum(1 for n in driver.walk(root) if n.kind == 'F')
+    if kind == 'slotname':
+        return sum(1 for n in driver.walk(root) if n.kind == 'S')
+    if kind == 'tmpldata':
+        return len([c for c in rt.template_calls if c[0] == 't9'])
+    return 0
+
+
 def classify(e):
     c = guards.chain_of(e)
     if c is not None:
         return 'chain' + ('-dyn' if any(k[0] == 'd' for k in c[1]) else '')
     return e[0] + (':' + e[1] if e[0] in ('bin', 'un') else '')
+
+
+TREE_PREFIXES = ('U', 'itemtree_', 'indextree_', 'slottrees_')
+
+
+def mentions_data(rt, v):
+    """does a protocol value depend on the data / scope symbols (i.e. is it a dynamic site)?"""
+    try:
+        t = rt.it.term(v)
+    except Exception:
+        return True
+    return mentions_tree(t, ('D', 'item_', 'index_', 'slotvalues_'))
+
+
+def mentions_tree(t, prefixes=None):
+    """does a z3 term mention an update-tree symbol (U, item / index / slot-value trees)?"""
+    TREE_PREFIXES = prefixes or ('U', 'itemtree_', 'indextree_', 'slottrees_')
+    seen = set()
+    todo = [t]
+    while todo:
+        x = todo.pop()
+        if not isinstance(x, z3.ExprRef) or x.get_id() in seen:
+            continue
+        seen.add(x.get_id())
+        if z3.is_const(x) and x.decl().kind() == z3.Z3_OP_UNINTERPRETED:
+            nm = x.decl().name()
+            if nm == TREE_PREFIXES[0] or any(nm.startswith(p) for p in TREE_PREFIXES[1:]):
+                return True
+        todo.extend(x.children())
+    return False
+
+
+def tree_conds(pc):
+    """conditions on the way to a node that depend on the update trees: they gate re-evaluation and belong to the guard
+    (conditions on data only - wx:if branches - decide whether the node exists at all)"""
+    return [c for c in pc if isinstance(c, z3.ExprRef) and mentions_tree(c)]
 
 
 def container_pc(n):
@@ -228,14 +303,15 @@ def site_obligations(rt, root, p):
         for n in driver.walk(root):
             for a in n.attrs:
                 if a[0] == setter and (name is None or (a[1] and a[1][0] == name)):
-                    g = z3.And([tb(c) for c in a[2][len(n.pc):]]) if a[2][len(n.pc):] else z3.BoolVal(True)
+                    conds = tree_conds(n.pc) + [tb(c) for c in a[2][len(n.pc):]]
+                    g = z3.And(conds) if conds else z3.BoolVal(True)
                     out.append(('%s setter R.%s' % (kind, setter), hyp, g, extra))
         return out
     if kind == 'text':
         for n in driver.walk(root):
             if n.kind == 'T' and n.text is not UNDEFINED:
-                rel = n.pc[len(container_pc(n)):]
-                g = z3.And([tb(c) for c in rel]) if rel else z3.BoolVal(True)
+                rel = tree_conds(container_pc(n)) + [tb(c) for c in n.pc[len(container_pc(n)):]]
+                g = z3.And(rel) if rel else z3.BoolVal(True)
                 out.append(('text node', hyp, g, extra))
         return out
     if kind == 'if':
